@@ -41,7 +41,7 @@ OBLIGATIONS = {"mode:plain": 20, "mode:zip-x.csv": 20, "mode:zip-x.zip": 20,
                "fmt:%0.2f": 10, "fmt:%0.10e": 10, "fmt:None": 10, "comments": 100,
                "comment:colon": 20, "comment:hash": 10, "comment:dashes": 3,
                "sysinfo:on": 20, "sysinfo:off": 20, "archive:multi-member": 20, "stale-sibling": 5, "overwrite": 20,
-               "same-comment-dict": 20}
+               "same-comment-dict": 20, "archive:path-spelling": 10}
 RESERVED = {"nrow", "ncol", "time_generated", "author", "source_file", "work_dir",
             "python_version", "pandas_version", "numpy_version", "python_inc",
             "python_lib", "comment", "python_environment"}
@@ -164,6 +164,10 @@ def gen_case(rng, it):
             key = "".join(keyalpha[int(i)] for i in
                           rng.integers(0, len(keyalpha), size=int(rng.integers(1, 26))))
             key = key.strip("_") or "k"
+            if it % 7 == 3 and k == 0:
+                # lower-case keys with punctuation (units, versions, ratios)
+                key = ["model.version", "area(km2)", "q95%", "rain/pet", "a-b", "x.y.z",
+                       "p[mm]", "t+1"][(it // 7) % 8]
             if key not in RESERVED and key not in comments and \
                     not key.startswith("comment"):
                 break
@@ -237,7 +241,11 @@ def run_case(ctx, case):
             fname = wd / stem
             kw = {"compress": True}
         else:
-            fname = f"a/b/{stem}.csv"
+            # the member path as a caller may spell it (same spelling on both sides)
+            fname = [f"a/b/{stem}.csv", f"./a/b/{stem}.csv", f"a/./b/{stem}.csv",
+                     f"a//b/{stem}.csv", f"a/b/{stem}.csv"][ctx.evaluations % 5]
+            if fname != f"a/b/{stem}.csv":
+                ctx.tag("archive:path-spelling")
             archive = zipfile.ZipFile(wd / "arch.zip", "w")
             kw = {"archive": archive}
             # other members first, with names that contain / are contained in ours
